@@ -73,6 +73,11 @@ class Compiler:
             else:
                 raise ProgrammingError('positional and named parameters cannot be mixed')
 
+        # Whether a SELECT statement is valid in the current context
+        # and nesting level of SELECT statements.
+        self.subquery = isinstance(query, (ast.Select, ast.Balances, ast.Journal))
+        self.depth = 0
+
         return self._compile(query)
 
     @singledispatchmethod
@@ -87,10 +92,15 @@ class Compiler:
         # Restore it afterwards as this may be a subquery and the
         # rest of the enclosing query needs to be compiled against
         # its own table.
+        if not self.subquery:
+            raise CompilationError('subqueries are supported only in FROM clauses and IN expressions', node)
+        self.subquery = False
         table = self.table
+        self.depth += 1
         try:
             return self._compile_select(node)
         finally:
+            self.depth -= 1
             self.table = table
 
     def _compile_select(self, node):
@@ -148,6 +158,8 @@ class Compiler:
 
         pivots = self._compile_pivot_by(node.pivot_by, c_targets, group_indexes)
         if pivots:
+            if self.depth > 1:
+                raise CompilationError('PIVOT BY is not supported in subqueries', node)
             return EvalPivot(query, pivots)
 
         return query
@@ -158,6 +170,7 @@ class Compiler:
 
         # Subquery.
         if isinstance(node, ast.Select):
+            self.subquery = True
             self.table = SubqueryTable(self._compile(node))
             return None
 
@@ -570,6 +583,7 @@ class Compiler:
     @_compile.register(ast.NotIn)
     def _inop(self, node: Union[ast.In, ast.NotIn]):
         left = self._compile(node.left)
+        self.subquery = isinstance(node.right, ast.Select)
         right = self._compile(node.right)
 
         if isinstance(right, EvalQuery):
